@@ -66,6 +66,10 @@ DIRECTED = [
      'Lib': {'depends': ['mid'], 'buildScript': 'echo upper\n', 'packageScript': 'true\n'},
      'mid': {'depends': ['lib'], 'buildScript': 'echo mid\n', 'packageScript': 'true\n'},
      'lib': {'buildScript': 'echo lower\n', 'packageScript': 'true\n'}},
+    # variants of one recipe that live in one job but differ in what is recorded per recipe (script language)
+    {'root': {'root': True, 'depends': ['lib-a', 'lib-b'], 'buildScript': 'true\n', 'packageScript': 'true\n'},
+     'lib': {'multiPackage': {'a': {'scriptLanguage': 'bash', 'checkoutDeterministic': True, 'checkoutScript': 'echo a-src\n', 'buildScript': 'echo a-build\n', 'packageScript': 'echo a-pkg\n'},
+                              'b': {'scriptLanguage': 'PowerShell', 'checkoutDeterministic': True, 'checkoutScript': 'Write-Output b-src\n', 'buildScript': 'Write-Output b-build\n', 'packageScript': 'Write-Output b-pkg\n'}}}},
     # a shared variant (lib-x, used by a and by zb-1) whose SECOND user must learn what the merged job reaches: lib-x/lib-y share the
     # job 'lib', lib-y -> zb-2, zb-1 -> lib-x: zb-1 and zb-2 must not be merged (lib -> zb -> lib)
     {'root': {'root': True, 'depends': ['a', 'zb-1', 'lib-y'], 'buildScript': 'echo root\n', 'packageScript': 'echo root\n'},
@@ -171,6 +175,12 @@ def analyse(recipes, roots, isolate, sandbox, label, shortdesc=False):
                         except Exception as e: return '%s raised %r' % (attr, e)
                         if (dict(va) if attr == 'getEnv' else va) != (dict(vb) if attr == 'getEnv' else vb): return '%s: spec %r live %r' % (attr, va, vb)
                     if depth == 0:
+                        # what is recorded per recipe (the build node picks the interpreter from it)
+                        ra, rb = a.getPackage().getRecipe(), b.getPackage().getRecipe()
+                        for attr in ('getName', 'getPackageName'):
+                            if hasattr(ra, attr) and hasattr(rb, attr) and getattr(ra, attr)() != getattr(rb, attr)(): return 'recipe %s: spec %r live %r' % (attr, getattr(ra, attr)(), getattr(rb, attr)())
+                        la_, lb_ = getattr(ra, 'scriptLanguage', None), getattr(rb, 'scriptLanguage', None)
+                        if la_ is not None and lb_ is not None and getattr(la_, 'index', la_) != getattr(lb_, 'index', lb_): return 'scriptLanguage: spec %r live %r' % (la_, lb_)
                         aa, bb = list(a.getArguments()), list(b.getArguments())
                         if len(aa) != len(bb): return 'argument count'
                         for x, y in zip(aa, bb):
